@@ -52,7 +52,10 @@ XStyleSeq == << [indent |-> 0, ref |-> 0, quote |-> 34, empty |-> 0, decl |-> 1,
                 [indent |-> 0, ref |-> 0, quote |-> 34, empty |-> 0, decl |-> 2, enc |-> "utf32le", bom |-> TRUE, order |-> 0],
                 [indent |-> -1, ref |-> 1, quote |-> 34, empty |-> 1, decl |-> 1, enc |-> "utf32be", bom |-> TRUE, order |-> 0],
                 \* character data as CDATA sections, each preceded by a comment
-                [indent |-> 0, ref |-> 0, quote |-> 34, empty |-> 0, decl |-> 1, enc |-> "utf8", bom |-> FALSE, order |-> 0, cdata |-> 1] >>
+                [indent |-> 0, ref |-> 0, quote |-> 34, empty |-> 0, decl |-> 1, enc |-> "utf8", bom |-> FALSE, order |-> 0, cdata |-> 1],
+                \* line breaks written as CR LF (a Windows rendering) and as a lone CR, in indentation and inside character data
+                [indent |-> 2, ref |-> 0, quote |-> 34, empty |-> 0, decl |-> 1, enc |-> "utf8", bom |-> FALSE, order |-> 0, eol |-> 1],
+                [indent |-> 0, ref |-> 0, quote |-> 34, empty |-> 0, decl |-> 1, enc |-> "utf8", bom |-> FALSE, order |-> 0, eol |-> 2] >>
 \* the document as it is actually laid out (member order) under width/style index wi
 DocFor(d, wi) == IF Arch = "msgpack" THEN d
                  ELSE IF (IF Arch = "xml" THEN XStyleSeq[wi + 1].order ELSE JStyleSeq[wi + 1].order) = 0 THEN d ELSE ReverseMaps(d)
@@ -90,6 +93,7 @@ Objs ==
   \cup { <<"map", <<<<S(Ka), U(5)>>, <<S(Kaa), x>>>>>> : x \in {U(6), S(<<120, 121>>)} }
   \cup { <<"map", <<<<S(Kaa), U(6)>>, <<S(Kb), U(4)>>, <<S(Ka), U(5)>>>>>> }
   \cup (IF Arch = "msgpack" THEN { <<"map", <<<<U(1), U(10)>>, <<U(-2), S(<<120>>)>>, <<S(Ka), U(7)>>>>>>,
+                                   <<"map", <<<<U(0), U(11)>>, <<U(1), U(10)>>>>>>,                 \* the integer key 0
                                    \* keys whose bit patterns coincide across signedness: 2^64-1 vs -1, 2^32-1 vs (int32)-1
                                    <<"map", <<<<<<"int", FALSE, <<255, 255, 255, 255, 255, 255, 255, 255>>>>, U(20)>>,
                                               <<<<"int", FALSE, <<0, 0, 0, 0, 255, 255, 255, 255>>>>, U(30)>>, <<U(1), U(10)>>>>>> } ELSE {})
@@ -105,7 +109,8 @@ ReqOps ==
   \cup { [op |-> "arr", ks |-> Ka, ops |-> o] : o \in { <<>>, <<[op |-> "elem", t |-> "i32"]>>,
                                                        <<[op |-> "elem", t |-> "i32"], [op |-> "elem", t |-> "i32"], [op |-> "isend"]>> } }
   \cup (IF Arch = "msgpack" THEN { [op |-> "req", ki |-> 1, t |-> "i32"], [op |-> "req", ki |-> -2, t |-> "str"],
-                                   [op |-> "req", ki |-> -1, t |-> "i32"], [op |-> "req", ku |-> 1, t |-> "i32"] } ELSE {})
+                                   [op |-> "req", ki |-> -1, t |-> "i32"], [op |-> "req", ku |-> 1, t |-> "i32"],
+                                   [op |-> "req", ki |-> 0, t |-> "i32"], [op |-> "req", ku |-> 0, t |-> "i32"] } ELSE {})
 
 FieldsRoot(ops) == [k |-> "arr", ops |-> <<[op |-> "elem", t |-> "str"], [op |-> "obj", ops |-> ops], [op |-> "elem", t |-> "i32"]>>]
 Padded(d, p) == <<"arr", <<S(Run(112, p)), d, U(7)>>>>
